@@ -428,80 +428,80 @@ def check_template_constancy(rep, rule):
     base = err.cls('HTTPException')
     fam = [base] + repo.subclasses(base, [err])
     n = 0
-    for c in fam:
-        for name, m in sorted(c.methods.items()):
-            if not name.startswith('to_') or name in ('to_dict', 'to_escaped_dict'):
-                continue
-            params = set(_param_names(m))
+    for m, servers in family_methods(repo, fam):
+        c, name = (m.cls if isinstance(m.cls, ClassInfo) else servers[0]), m.name
+        if not name.startswith('to_') or name in ('to_dict', 'to_escaped_dict'):
+            continue
+        params = set(_param_names(m))
 
-            def const_value(v):
-                return isinstance(v, str) or (isinstance(v, (list, tuple)) and all(isinstance(x, str) for x in v))
+        def const_value(v):
+            return isinstance(v, str) or (isinstance(v, (list, tuple)) and all(isinstance(x, str) for x in v))
 
-            def const_expr(e, depth=0):
-                """is this string-valued (or list-of-strings-valued) expression built from constants only?  Either by
-                its structure (literals, locals assembled from literals) or because it folds from literals and module
-                constants (a template generated from a constant table of field names, ...)."""
-                if depth > 8:
+        def const_expr(e, depth=0):
+            """is this string-valued (or list-of-strings-valued) expression built from constants only?  Either by
+            its structure (literals, locals assembled from literals) or because it folds from literals and module
+            constants (a template generated from a constant table of field names, ...)."""
+            if depth > 8:
+                return False
+            return structurally_const(e, depth) or \
+                (not isinstance(e, (ast.Constant, ast.Name)) and is_function_constant(repo, m, e, const_value))
+
+        def structurally_const(e, depth):
+            if isinstance(e, ast.Constant):
+                return isinstance(e.value, str)
+            if isinstance(e, ast.JoinedStr):
+                return all(isinstance(v, ast.Constant) for v in e.values)
+            if isinstance(e, ast.BinOp) and isinstance(e.op, ast.Add):
+                return const_expr(e.left, depth + 1) and const_expr(e.right, depth + 1)
+            if isinstance(e, ast.IfExp):
+                return const_expr(e.body, depth + 1) and const_expr(e.orelse, depth + 1)
+            if isinstance(e, (ast.List, ast.Tuple)):
+                return all(const_expr(x, depth + 1) for x in e.elts)
+            if isinstance(e, ast.Call) and isinstance(e.func, ast.Attribute) and e.func.attr == 'join' and len(e.args) == 1 \
+                    and not e.keywords:
+                return const_expr(e.func.value, depth + 1) and const_expr(e.args[0], depth + 1)
+            if isinstance(e, ast.Call) and isinstance(e.func, ast.Name) and e.func.id in ('list', 'tuple') and not e.keywords \
+                    and len(e.args) <= 1 and e.func.id not in params and not _name_stores(m, e.func.id):
+                # a fresh copy of a constant sequence (``lines = list(_HEAD_LINES)``)
+                return not e.args or const_expr(e.args[0], depth + 1)
+            if isinstance(e, ast.Name):
+                if e.id in params:
                     return False
-                return structurally_const(e, depth) or \
-                    (not isinstance(e, (ast.Constant, ast.Name)) and is_function_constant(repo, m, e, const_value))
-
-            def structurally_const(e, depth):
-                if isinstance(e, ast.Constant):
-                    return isinstance(e.value, str)
-                if isinstance(e, ast.JoinedStr):
-                    return all(isinstance(v, ast.Constant) for v in e.values)
-                if isinstance(e, ast.BinOp) and isinstance(e.op, ast.Add):
-                    return const_expr(e.left, depth + 1) and const_expr(e.right, depth + 1)
-                if isinstance(e, ast.IfExp):
-                    return const_expr(e.body, depth + 1) and const_expr(e.orelse, depth + 1)
-                if isinstance(e, (ast.List, ast.Tuple)):
-                    return all(const_expr(x, depth + 1) for x in e.elts)
-                if isinstance(e, ast.Call) and isinstance(e.func, ast.Attribute) and e.func.attr == 'join' and len(e.args) == 1 \
-                        and not e.keywords:
-                    return const_expr(e.func.value, depth + 1) and const_expr(e.args[0], depth + 1)
-                if isinstance(e, ast.Call) and isinstance(e.func, ast.Name) and e.func.id in ('list', 'tuple') and not e.keywords \
-                        and len(e.args) <= 1 and e.func.id not in params and not _name_stores(m, e.func.id):
-                    # a fresh copy of a constant sequence (``lines = list(_HEAD_LINES)``)
-                    return not e.args or const_expr(e.args[0], depth + 1)
-                if isinstance(e, ast.Name):
-                    if e.id in params:
+                srcs = [s.value for s in stmts_of(m.node) if isinstance(s, ast.Assign) and any(norm(t) == e.id for t in s.targets)]
+                adds = [c_ for c_ in walk_body(m.node) if isinstance(c_, ast.Call) and isinstance(c_.func, ast.Attribute)
+                        and norm(c_.func.value) == e.id and c_.func.attr in ('append', 'extend', 'insert')]
+                augs = [s.value for s in stmts_of(m.node) if isinstance(s, ast.AugAssign) and norm(s.target) == e.id]
+                if len(srcs) + len(augs) != len(_name_stores(m, e.id)):
+                    return False    # bound in some other way (loop variable, tuple unpacking, ...)
+                if not srcs:
+                    if augs or adds:
                         return False
-                    srcs = [s.value for s in stmts_of(m.node) if isinstance(s, ast.Assign) and any(norm(t) == e.id for t in s.targets)]
-                    adds = [c_ for c_ in walk_body(m.node) if isinstance(c_, ast.Call) and isinstance(c_.func, ast.Attribute)
-                            and norm(c_.func.value) == e.id and c_.func.attr in ('append', 'extend', 'insert')]
-                    augs = [s.value for s in stmts_of(m.node) if isinstance(s, ast.AugAssign) and norm(s.target) == e.id]
-                    if len(srcs) + len(augs) != len(_name_stores(m, e.id)):
-                        return False    # bound in some other way (loop variable, tuple unpacking, ...)
-                    if not srcs:
-                        if augs or adds:
-                            return False
-                        try:
-                            return const_value(repo.fold(e, err))
-                        except Exception:
-                            return False
-                    return all(const_expr(v, depth + 1) for v in srcs + augs) and all(a.args and const_expr(a.args[-1], depth + 1) for a in adds)
-                if isinstance(e, (ast.Attribute, ast.Subscript)):
                     try:
-                        return const_value(repo.fold(e, err))
+                        return const_value(repo.fold(e, m.mod))
                     except Exception:
                         return False
-                return False
-            for node in walk_body(m.node):
-                tmpl = None
-                if isinstance(node, ast.Call) and isinstance(node.func, ast.Attribute) and node.func.attr in ('format', 'format_map'):
-                    tmpl = node.func.value
-                elif isinstance(node, ast.BinOp) and isinstance(node.op, ast.Mod) and \
-                        not (isinstance(node.left, ast.Constant) and not isinstance(node.left.value, str)):
-                    tmpl = node.left
-                if tmpl is None:
-                    continue
-                n += 1
-                ok = const_expr(tmpl)
-                rep.check(rule, fkey(m, 'template of ' + norm(node)[:60]), ok,
-                          'format template is made of constants only' if ok else
-                          '%s.%s formats a template that already contains interpolated data (%s): a "{" / "%%" in a detail or exception '
-                          'message raises inside the renderer and inside its default-rendering fallback' % (c.name, name, short(tmpl)), err, node)
+                return all(const_expr(v, depth + 1) for v in srcs + augs) and all(a.args and const_expr(a.args[-1], depth + 1) for a in adds)
+            if isinstance(e, (ast.Attribute, ast.Subscript)):
+                try:
+                    return const_value(repo.fold(e, m.mod))
+                except Exception:
+                    return False
+            return False
+        for node in walk_body(m.node):
+            tmpl = None
+            if isinstance(node, ast.Call) and isinstance(node.func, ast.Attribute) and node.func.attr in ('format', 'format_map'):
+                tmpl = node.func.value
+            elif isinstance(node, ast.BinOp) and isinstance(node.op, ast.Mod) and \
+                    not (isinstance(node.left, ast.Constant) and not isinstance(node.left.value, str)):
+                tmpl = node.left
+            if tmpl is None:
+                continue
+            n += 1
+            ok = const_expr(tmpl)
+            rep.check(rule, fkey(m, 'template of ' + norm(node)[:60]), ok,
+                      'format template is made of constants only' if ok else
+                      '%s.%s formats a template that already contains interpolated data (%s): a "{" / "%%" in a detail or exception '
+                      'message raises inside the renderer and inside its default-rendering fallback' % (c.name, name, short(tmpl)), m.mod, node)
     return n
 
 
@@ -674,100 +674,157 @@ def check_escaped_dict(rep, repo, err, base):
               'to_escaped_dict can skip fields of to_dict()', err, ted.node)
 
 
-def check_markup_sinks(rep, repo, err, fam):
-    n_sinks = 0
+def family_methods(repo, fam):
+    """[(method, [classes of the family that use it])]: every method of the analysed tree a class of the family resolves
+    one of its attribute names to -- its own, an inherited one, or one defined in a mixin outside the family."""
+    out, index = [], {}
+    for c in fam:
+        for k in repo.mro(c):
+            if not isinstance(k, ClassInfo) or k.mod.external:
+                continue
+            for name, m in sorted(k.methods.items()):
+                if repo.find_method(c, name) is not m:
+                    continue        # overridden for this class
+                if id(m.node) not in index:
+                    index[id(m.node)] = len(out)
+                    out.append((m, []))
+                out[index[id(m.node)]][1].append(c)
+    return out
+
+
+def markup_methods(repo, fam):
+    """[(method, [classes of the family it serves])] for the to_html / to_xml serialisers of the family: the function
+    each class *resolves* the name to -- defined in the class, in a base class, or in a mixin outside the family --
+    so that a serialiser moved into a shared base is analysed for every class that inherits it."""
+    out = []
     for c in fam:
         for name in ('to_html', 'to_xml'):
-            m = c.methods.get(name)
-            if m is None:
+            m = repo.find_method(c, name)
+            if m is None or m.mod.external:
                 continue
-            n_sinks += 1
-            # (B) shipped template
-            rets = returns_of(m)
-            tmpl_rets = [r for r in rets if isinstance(expand_expr(m, r.value, r), ast.Call) and
-                         norm(expand_expr(m, r.value, r).func) == 'CONTEXTUAL_ENV.render']
-            if tmpl_rets and len(tmpl_rets) == len(rets):
-                names = [_template_name(repo, err, m, expand_expr(m, r.value, r)) for r in tmpl_rets]
-                rep.ok('R09.c', fkey(m), 'renders shipped template(s) %s (escaping: R09.d)' % names, err, m.node)
+            for entry in out:
+                if entry[0] is m:
+                    entry[1].append(c)
+                    break
+            else:
+                out.append((m, [c]))
+    return out
+
+
+def check_markup_sinks(rep, repo, err, fam):
+    sinks_seen = set()
+    for m, servers in markup_methods(repo, fam):
+        c, name = (m.cls if isinstance(m.cls, ClassInfo) else servers[0]), m.name
+        mmod = m.mod
+        # (B) shipped template
+        rets = returns_of(m)
+        tmpl_rets = [r for r in rets if isinstance(expand_expr(m, r.value, r), ast.Call) and
+                     norm(expand_expr(m, r.value, r).func) == 'CONTEXTUAL_ENV.render']
+        if tmpl_rets and len(tmpl_rets) == len(rets):
+            # the name may be a class attribute (``self._template_name``): it is read for every class that inherits
+            # the method
+            names = sorted(set(_template_name(repo, mmod, m, expand_expr(m, r.value, r), recv) for r in tmpl_rets for recv in servers))
+            sinks_seen |= set((id(m.node), n_) for n_ in names)
+            rep.ok('R09.c', fkey(m), 'renders shipped template(s) %s (escaping: R09.d)' % names, mmod, m.node)
+            continue
+        sinks_seen.add((id(m.node), None))
+
+        # (A) format with the escaped dict
+        def is_escaped_map(e, st):
+            return norm(expand_expr(m, e, st)) == 'self.to_escaped_dict()'
+
+        def is_escaped_field(e, st):
+            return isinstance(e, ast.Subscript) and isinstance(e.slice, ast.Constant) and is_escaped_map(e.value, st)
+        sinks, bad = [], []
+        for n_ in walk_body(m.node):
+            st = None
+            is_fmt = (isinstance(n_, ast.Call) and isinstance(n_.func, ast.Attribute) and n_.func.attr in ('format', 'format_map')) or \
+                (isinstance(n_, ast.BinOp) and isinstance(n_.op, ast.Mod)) or isinstance(n_, ast.JoinedStr)
+            if is_fmt and inside_constant(repo, m, n_):
+                # formatting of constants with constants (a template generated from a constant table of field
+                # names): template text, no field of the instance is interpolated here
                 continue
-
-            # (A) format with the escaped dict
-            def is_escaped_map(e, st):
-                return norm(expand_expr(m, e, st)) == 'self.to_escaped_dict()'
-
-            def is_escaped_field(e, st):
-                return isinstance(e, ast.Subscript) and isinstance(e.slice, ast.Constant) and is_escaped_map(e.value, st)
-            sinks, bad = [], []
-            for n_ in walk_body(m.node):
-                st = None
-                is_fmt = (isinstance(n_, ast.Call) and isinstance(n_.func, ast.Attribute) and n_.func.attr in ('format', 'format_map')) or \
-                    (isinstance(n_, ast.BinOp) and isinstance(n_.op, ast.Mod)) or isinstance(n_, ast.JoinedStr)
-                if is_fmt and inside_constant(repo, m, n_):
-                    # formatting of constants with constants (a template generated from a constant table of field
-                    # names): template text, no field of the instance is interpolated here
-                    continue
-                if isinstance(n_, ast.Call) and isinstance(n_.func, ast.Attribute) and n_.func.attr in ('format', 'format_map'):
-                    sinks.append(n_)
-                    st = stmt_of(err, n_)
-                    if n_.func.attr == 'format_map':
-                        good = len(n_.args) == 1 and not n_.keywords and is_escaped_map(n_.args[0], st)
-                    else:
-                        good = bool(n_.args or n_.keywords) and all(is_escaped_field(a, st) for a in n_.args) and \
-                            all(is_escaped_map(k_.value, st) if k_.arg is None else is_escaped_field(k_.value, st) for k_ in n_.keywords)
-                    if not good:
-                        bad.append(n_)
-                elif isinstance(n_, ast.BinOp) and isinstance(n_.op, ast.Mod) and \
-                        not (isinstance(n_.left, ast.Constant) and not isinstance(n_.left.value, str)):
-                    sinks.append(n_)
-                    st = stmt_of(err, n_)
-                    r = n_.right
-                    good = is_escaped_map(r, st) or is_escaped_field(r, st) or \
-                        (isinstance(r, ast.Tuple) and r.elts and all(is_escaped_field(x, st) for x in r.elts))
-                    if not good:
-                        bad.append(n_)
-                elif isinstance(n_, ast.JoinedStr) and any(isinstance(v, ast.FormattedValue) for v in n_.values):
-                    sinks.append(n_)
-                    st = stmt_of(err, n_)
-                    if not all(is_escaped_field(v.value, st) for v in n_.values if isinstance(v, ast.FormattedValue)):
-                        bad.append(n_)
-            if not sinks:
-                raise AnalysisError('%s.%s: construction of the markup not recognised (no format / %% / f-string)' % (c.name, name))
-            ok = not bad
-            rep.check('R09.c', fkey(m), ok, 'markup is built by .format(**to_escaped_dict()) only' if ok else
-                      '%s.%s interpolates unescaped fields into markup: %s' % (c.name, name, [short(b) for b in bad]), err,
-                      (bad or [m.node])[0])
-            # no direct use of raw fields in the returned string
-            raw = [n_ for n_ in walk_body(m.node) if isinstance(n_, ast.Call) and norm(n_.func) == 'self.to_dict']
-            rep.check('R09.c', fkey(m, 'no raw dict'), not raw, 'the raw to_dict() is not used for markup' if not raw else
-                      '%s.%s uses the unescaped to_dict()' % (c.name, name), err, raw[0] if raw else m.node)
-            # the escaped mapping stays escaped: nothing is stored into it afterwards
-            evars = [s.targets[0].id for s in stmts_of(m.node) if isinstance(s, ast.Assign) and len(s.targets) == 1 and
-                     isinstance(s.targets[0], ast.Name) and norm(s.value) == 'self.to_escaped_dict()']
-            muts = [n_ for n_ in walk_body(m.node)
-                    if (isinstance(n_, ast.Subscript) and isinstance(n_.ctx, (ast.Store, ast.Del)) and norm(n_.value) in evars) or
-                    (isinstance(n_, ast.Call) and isinstance(n_.func, ast.Attribute) and norm(n_.func.value) in evars and
-                     n_.func.attr in ('update', 'setdefault', '__setitem__'))]
-            rep.check('R09.c', fkey(m, 'escaped mapping unmodified'), not muts, 'nothing is stored into the escaped mapping' if not muts else
-                      '%s.%s stores %s into the escaped mapping before interpolating it' % (c.name, name, short(muts[0], 60)), err,
-                      muts[0] if muts else m.node)
-    if n_sinks < 4:
-        raise AnalysisError('only %d to_html/to_xml methods found (floor 4)' % n_sinks)
+            if isinstance(n_, ast.Call) and isinstance(n_.func, ast.Attribute) and n_.func.attr in ('format', 'format_map'):
+                sinks.append(n_)
+                st = stmt_of(mmod, n_)
+                if n_.func.attr == 'format_map':
+                    good = len(n_.args) == 1 and not n_.keywords and is_escaped_map(n_.args[0], st)
+                else:
+                    good = bool(n_.args or n_.keywords) and all(is_escaped_field(a, st) for a in n_.args) and \
+                        all(is_escaped_map(k_.value, st) if k_.arg is None else is_escaped_field(k_.value, st) for k_ in n_.keywords)
+                if not good:
+                    bad.append(n_)
+            elif isinstance(n_, ast.BinOp) and isinstance(n_.op, ast.Mod) and \
+                    not (isinstance(n_.left, ast.Constant) and not isinstance(n_.left.value, str)):
+                sinks.append(n_)
+                st = stmt_of(mmod, n_)
+                r = n_.right
+                good = is_escaped_map(r, st) or is_escaped_field(r, st) or \
+                    (isinstance(r, ast.Tuple) and r.elts and all(is_escaped_field(x, st) for x in r.elts))
+                if not good:
+                    bad.append(n_)
+            elif isinstance(n_, ast.JoinedStr) and any(isinstance(v, ast.FormattedValue) for v in n_.values):
+                sinks.append(n_)
+                st = stmt_of(mmod, n_)
+                if not all(is_escaped_field(v.value, st) for v in n_.values if isinstance(v, ast.FormattedValue)):
+                    bad.append(n_)
+        if not sinks:
+            raise AnalysisError('%s.%s: construction of the markup not recognised (no format / %% / f-string)' % (c.name, name))
+        ok = not bad
+        rep.check('R09.c', fkey(m), ok, 'markup is built by .format(**to_escaped_dict()) only' if ok else
+                  '%s.%s interpolates unescaped fields into markup: %s' % (c.name, name, [short(b) for b in bad]), mmod,
+                  (bad or [m.node])[0])
+        # no direct use of raw fields in the returned string
+        raw = [n_ for n_ in walk_body(m.node) if isinstance(n_, ast.Call) and norm(n_.func) == 'self.to_dict']
+        rep.check('R09.c', fkey(m, 'no raw dict'), not raw, 'the raw to_dict() is not used for markup' if not raw else
+                  '%s.%s uses the unescaped to_dict()' % (c.name, name), mmod, raw[0] if raw else m.node)
+        # the escaped mapping stays escaped: nothing is stored into it afterwards
+        evars = [s.targets[0].id for s in stmts_of(m.node) if isinstance(s, ast.Assign) and len(s.targets) == 1 and
+                 isinstance(s.targets[0], ast.Name) and norm(s.value) == 'self.to_escaped_dict()']
+        muts = [n_ for n_ in walk_body(m.node)
+                if (isinstance(n_, ast.Subscript) and isinstance(n_.ctx, (ast.Store, ast.Del)) and norm(n_.value) in evars) or
+                (isinstance(n_, ast.Call) and isinstance(n_.func, ast.Attribute) and norm(n_.func.value) in evars and
+                 n_.func.attr in ('update', 'setdefault', '__setitem__'))]
+        rep.check('R09.c', fkey(m, 'escaped mapping unmodified'), not muts, 'nothing is stored into the escaped mapping' if not muts else
+                  '%s.%s stores %s into the escaped mapping before interpolating it' % (c.name, name, short(muts[0], 60)), mmod,
+                  muts[0] if muts else m.node)
+    if len(sinks_seen) < 4:
+        raise AnalysisError('only %d to_html/to_xml renderings found (floor 4)' % len(sinks_seen))
 
 
-def _template_name(repo, mod, fi, render_call):
-    """Folded first argument of CONTEXTUAL_ENV.render(name, ctx); ``self.attr`` is looked up on the class."""
+def _template_name(repo, mod, fi, render_call, recv=None):
+    """Folded first argument of CONTEXTUAL_ENV.render(name, ctx); ``self.attr`` is looked up on the class of the
+    receiver ``recv`` (default: the class defining the method) through its bases -- a class attribute that no method
+    of those classes ever stores on the instance."""
     a = argn(render_call, 'name', 0)
     if a is None:
         raise AnalysisError('%s: template name of %s not found' % (fi.qualname, short(render_call, 60)))
     v = repo.try_fold(a, mod)
+    recv = recv if recv is not None else fi.cls
     if v is None and isinstance(a, ast.Attribute) and isinstance(a.value, ast.Name) and a.value.id in ('self', 'cls') and \
-            isinstance(fi.cls, ClassInfo):
-        dc, val = repo.class_attr(fi.cls, a.attr)
-        if val is not None and not isinstance(val, (ast.FunctionDef, ast.AsyncFunctionDef)):
+            isinstance(recv, ClassInfo):
+        dc, val = repo.class_attr(recv, a.attr)
+        if val is not None and not isinstance(val, (ast.FunctionDef, ast.AsyncFunctionDef)) and not _instance_attr_written(repo, recv, a.attr):
             v = repo.try_fold(val, dc.mod)
     if not isinstance(v, str):
-        raise AnalysisError('%s: template name %s is not a constant' % (fi.qualname, short(a, 60)))
+        raise AnalysisError('%s: template name %s is not a constant%s' % (fi.qualname, short(a, 60), ' of %s' % recv.name if isinstance(recv, ClassInfo) else ''))
     return v
+
+
+def _instance_attr_written(repo, cls, attr):
+    """Does a method of the class or of one of its bases in the analysed tree store the attribute (on any object: a
+    write through an alias of self counts), or call setattr / touch __dict__?"""
+    for k in repo.mro(cls):
+        if not isinstance(k, ClassInfo) or k.mod.external:
+            continue
+        for m in k.methods.values():
+            for n in ast.walk(m.node):
+                if isinstance(n, ast.Attribute) and isinstance(n.ctx, (ast.Store, ast.Del)) and n.attr == attr:
+                    return True
+                if isinstance(n, ast.Call) and isinstance(n.func, ast.Name) and n.func.id in ('setattr', 'delattr') and \
+                        not (len(n.args) >= 2 and isinstance(n.args[1], ast.Constant) and n.args[1].value != attr):
+                    return True
+    return False
 
 
 # ---------------------------------------------------------------------------------------------- R09.b helpers
@@ -971,16 +1028,21 @@ def registered_templates(repo, ce):
     table>`` counts once per row."""
     top_calls = [n_.value for n_ in ce.tree.body if isinstance(n_, ast.Expr) and isinstance(n_.value, ast.Call)
                  and isinstance(n_.value.func, ast.Name)]
-    scopes_ = [(None, ce.tree.body)]
+    scopes_ = [(None, ce.tree.body, {})]
     called = []
     for c in top_calls:
         fi = ce.functions.get(c.func.id)
         if fi is not None and fi.cls is None:
             called.append((fi, c))
-            scopes_.append((fi, fi.node.body))
+            # the function's parameters stand for the argument expressions of this call (evaluated at module level)
+            binding = call_binding(fi, c) if _param_names(fi) else {}
+            if binding is None:
+                raise AnalysisError('%s(...) at module level: the arguments cannot be matched with the parameters' % fi.qualname)
+            scopes_.append((fi, fi.node.body, dict((p_, v[1] if isinstance(v, tuple) else v) for p_, v in binding.items())))
     out = {}
     n_calls = 0
-    for fi, body in scopes_:
+    counted = set()
+    for fi, body, binding in scopes_:
         todo = list(body)
         nodes = []
         while todo:
@@ -992,7 +1054,9 @@ def registered_templates(repo, ce):
         for c in nodes:
             if not (isinstance(c, ast.Call) and norm(c.func) == 'CONTEXTUAL_ENV.register_source'):
                 continue
-            n_calls += 1
+            if id(c) not in counted:        # a function called twice at module level: its calls are counted once
+                counted.add(id(c))
+                n_calls += 1
             a_name, a_src = argn(c, 'name', 0), argn(c, 'source', 1)
             if a_name is None or a_src is None:
                 raise AnalysisError('register_source call %s: name / source argument not found' % short(c, 60))
@@ -1000,7 +1064,7 @@ def registered_templates(repo, ce):
             cur = ce.parents.get(c)
             while cur is not None and not isinstance(cur, (ast.FunctionDef, ast.AsyncFunctionDef, ast.Module)):
                 if isinstance(cur, (ast.For, ast.AsyncFor)) and (names_stored(cur.target) & (_names(a_name) | _names(a_src))):
-                    rows = _loop_rows(repo, ce, fi, cur)
+                    rows = _loop_rows(repo, ce, fi, cur, binding)
                     break
                 cur = ce.parents.get(cur)
             for env in rows:
@@ -1009,6 +1073,9 @@ def registered_templates(repo, ce):
                 if fi is not None:
                     nm = expand_expr(fi, nm, stmt_of(ce, c)) if not env else nm
                     sx = expand_expr(fi, sx, stmt_of(ce, c)) if not env else sx
+                    if not env and binding:
+                        # a parameter of the registering function, never re-bound in it (call_binding): the argument
+                        nm, sx = _subst(nm, binding), _subst(sx, binding)
                 name = repo.try_fold(nm, ce)
                 if not isinstance(name, str):
                     raise AnalysisError('register_source: template name %s is not a constant' % short(nm, 60))
@@ -1032,15 +1099,20 @@ def _subst(e, env):
     return S().visit(copy.deepcopy(e))
 
 
-def _loop_rows(repo, mod, fi, loop):
+def _loop_rows(repo, mod, fi, loop, binding=None):
     """[{loop variable: element expression}] for a ``for`` over a literal list / tuple of tuples (or over the items of a
-    literal dict), written in place, named by a single-assignment local or by a module constant."""
+    literal dict), written in place, named by a single-assignment local or by a module constant -- or handed to the
+    registering function as the argument of its one module-level call (``binding``: parameter -> argument)."""
     it = loop.iter
     if fi is not None:
         it = expand_expr(fi, it, loop)
+    from_caller = False
+    if fi is not None and binding and isinstance(it, ast.Name) and it.id in binding:
+        it, from_caller = binding[it.id], True     # evaluated where the call is written: at module level
+
     def module_const(e):
         # a module-level name bound once to a display
-        if isinstance(e, ast.Name) and (fi is None or not (e.id in _param_names(fi) or _name_stores(fi, e.id))):
+        if isinstance(e, ast.Name) and (fi is None or from_caller or not (e.id in _param_names(fi) or _name_stores(fi, e.id))):
             vals = [v for v in mod.assigns.get(e.id, [])]
             if len(vals) == 1 and isinstance(vals[0], ast.expr):
                 return vals[0]
@@ -1414,11 +1486,11 @@ def rule_d(rep, repo, err, fam):
     rep.check('R09.d', 'clastic._contextual_errors::_register_templates()', n_calls == total, 'templates are registered at import' if n_calls == total else
               '%d of %d register_source calls are in code the module never runs at import' % (total - n_calls, total), ce)
     used = set()
-    for c in fam:
-        for m in c.methods.values():
-            for cl in walk_body(m.node):
-                if isinstance(cl, ast.Call) and norm(cl.func) == 'CONTEXTUAL_ENV.render':
-                    used.add(_template_name(repo, err, m, cl))
+    for m, servers in family_methods(repo, fam):
+        for cl in walk_body(m.node):
+            if isinstance(cl, ast.Call) and norm(cl.func) == 'CONTEXTUAL_ENV.render':
+                for recv in servers:
+                    used.add(_template_name(repo, m.mod, m, cl, recv))
     for name in sorted(used):
         rep.check('R09.d', 'clastic._contextual_errors::registered %s' % name, name in registered, 'template %s is registered' % name if name in registered else
                   'template %r is rendered but never registered' % name, ce)
